@@ -1,7 +1,7 @@
 """C08 - parse has exactly three outcomes, fixed by the start rule's match."""
 from contracts import rt_run, rt_final, rt_errors, rt_misc, rt_walk, shift, core, lists, bind, call
 from pyvc.report import Report
-from .common import run_rt, run_fragments
+from .common import run_rt, run_fragments, dependency_layer
 from . import wiring
 
 
@@ -27,4 +27,5 @@ def run(tier, seed):
                            'give a shift-invariant outcome; refuted for Backtrack as it must be); loop classes through their recursive spec functions and the step '
                            'from spec to code (the fragment contracts) are combined on paper; Regex by the re contract without anchors / look-behind; line/column are not claimed shift-invariant')
     rep.assumptions.append('exceptions raised by user code, MemoryError and RecursionError inside user callbacks are outside the statement')
+    dependency_layer(rep, tier)
     return rep.finish()
